@@ -389,7 +389,7 @@ def sendRef (data : δ) (filters : List φ) : M σ ε Bool Unit :=
 
 /-- one iteration of `for efilter in self._filters` written by hand -/
 def filterStepRef (loop : δ → M σ ε Bool δ) (efilter : φ) (data : δ) : M σ ε Bool δ :=
-  let retval := Q.applyFilter efilter data
+  M.bind (Q.applyFilter efilter data) fun retval =>
   if Q.isMapping retval then
     if Q.anyKeyNotStr retval then
       M.raise (Q.mkExc "TypeError" "")
@@ -428,7 +428,7 @@ def sendPrims (dlv : Dlv) (src : Nat) (e : Edge) : SendPrims St ExcV Data Filter
   sameCircuit := true
   mkExc := mkExc
   setSource := fun d => d.set "source" (.str (blockName src))
-  applyFilter := filterView
+  applyFilter := fun f d => M.pure (filterView f d)     -- the filters of the model neither raise nor act
   isMapping := fun r => match r with | .mapping _ => true | .value _ => false
   anyKeyNotStr := fun _ => false            -- the keys of `Data` are strings
   asData := fun r => match r with | .mapping d => d | .value _ => []
@@ -458,7 +458,10 @@ theorem q_isMapping_mapping (m : Data) : (sendPrims dlv src e).isMapping (.mappi
 theorem q_anyKey (r : FRes) : (sendPrims dlv src e).anyKeyNotStr r = false := rfl
 theorem q_asData (m : Data) : (sendPrims dlv src e).asData (.mapping m) = m := rfl
 theorem q_truthy_value (v : Val) : (sendPrims dlv src e).resTruthy (.value v) = v.truthy := rfl
-theorem q_apply (f : Filter) (data : Data) : (sendPrims dlv src e).applyFilter f data = filterView f data := rfl
+theorem q_apply (f : Filter) (data : Data) :
+    (sendPrims dlv src e).applyFilter f data = M.pure (filterView f data) := rfl
+
+theorem pure_bind {σ ε ρ α β : Type} (a : α) (k : α → M σ ε ρ β) : M.bind (M.pure a) k = k a := rfl
 
 /-- one filter: the translated iteration is the model's `Filter.apply` -/
 theorem filter_step_is_model (f : Filter) (fs : List Filter) (data : Data) :
@@ -468,7 +471,7 @@ theorem filter_step_is_model (f : Filter) (fs : List Filter) (data : Data) :
        | some d' => send_for1 (sendPrims dlv src e) fs d') := by
   rw [(filter_loop_unfold (sendPrims dlv src e) f fs data).1]
   unfold filterStepRef
-  simp only [q_apply]
+  simp only [q_apply, pure_bind]
   cases f with
   | accept => simp [filterView, Filter.apply, q_isMapping_value, q_truthy_value, val_bool_truthy]
   | reject => simp [filterView, Filter.apply, q_isMapping_value, q_truthy_value, val_bool_truthy]
